@@ -130,19 +130,24 @@ func (s *scriptServer) handler(which int) http.Handler {
 		}
 		s.reqs = append(s.reqs, recvReq{auth: r.Header.Get("Authorization"), body: body, method: r.Method, host: r.Host})
 		s.mu.Unlock()
+		// every answer has its own body, so that the caller can be shown to receive the LAST one, readable
+		answer := []byte(fmt.Sprintf("answer %d of kind %d", i, code))
 		switch code {
 		case 0:
 			w.WriteHeader(200)
-			w.Write([]byte("ok"))
+			w.Write(answer)
 		case 1:
 			w.Header().Set("WWW-Authenticate", "Negotiate")
 			w.WriteHeader(401)
+			w.Write(answer)
 		case 2:
 			w.Header().Set("WWW-Authenticate", "Negotiate oQcwBaADCgEC")
 			w.WriteHeader(401)
+			w.Write(answer)
 		case 3:
 			w.Header().Set("WWW-Authenticate", "Basic realm=\"x\"")
 			w.WriteHeader(401)
+			w.Write(answer)
 		case 4, 5:
 			target := s.srvA.URL
 			if code == 5 && which == 0 || code == 4 && which == 1 {
@@ -152,6 +157,7 @@ func (s *scriptServer) handler(which int) http.Handler {
 			w.WriteHeader(302)
 		case 6:
 			w.WriteHeader(500)
+			w.Write(answer)
 		}
 	})
 }
@@ -322,7 +328,21 @@ func c18(c *Ctx) {
 				final = 4
 			}
 			obs = jv.Ok(jv.I(0), jv.I(final), jv.L(flags...))
+			// the response handed back is the server's last answer and its body can still be read
+			rb, rerr := io.ReadAll(resp.Body)
 			resp.Body.Close()
+			if resp.StatusCode != 302 && len(reqs) > 0 {
+				last := len(reqs) - 1
+				lc := sc.tail
+				if last < len(sc.prefix) {
+					lc = sc.prefix[last]
+				}
+				want := fmt.Sprintf("answer %d of kind %d", last, lc)
+				if sc.method == "HEAD" {
+					want = ""
+				}
+				c.Check(rerr == nil && string(rb) == want, "the caller receives the server's final response with its body", "final-response-body", fmt.Sprintf("read error %v, body %q, want %q", rerr, rb, want), inp)
+			}
 		}
 		c.Case("http_do", jv.L(jv.L(jp...), jv.I(modelResp(sc.tail)), jv.I(0)), obs)
 		if err != nil && !sc.readAll && strings.Contains(err.Error(), "ContentLength=") {
